@@ -13,7 +13,10 @@ RULE = (
     'either returned - then the event is delivered exactly once and completes - or raised - then it is not in '
     'event_history, not among the children of the running handler, has no results, its event_path does not name the bus, '
     'and the event whose handler '
-    'attempted it still completes. Non-trivial = at least one rejection; distinct by canonical JSON.'
+    'attempted it still completes. A quarter of the cases are 2-3-bus whole-program scenarios instead (the same object handed to another bus '
+    'after it completed, in-handler fan-out beyond the backlog limit, forwarding): every (bus, event) for which dispatch returned has all matching '
+    'handlers of that bus run and the event completes; objects refused everywhere leave no trace. Non-trivial = at least one rejection, or an object '
+    'accepted by a second bus after the first; distinct by canonical JSON.'
 )
 ASSUMPTIONS = ['virtual time', 'rejections are whatever exception dispatch raises (RuntimeError backlog, QueueFull)']
 
@@ -30,17 +33,75 @@ sc_default = st.fixed_dictionaries({'N': st.sampled_from([50, 50, 50, 10, 3]), '
 
 
 def budget(tier):
-    return {'examples': 1500 if tier == 'quick' else 30000, 'wall_s': 400 if tier == 'quick' else 3000, 'shrink_s': 90}
+    return {'examples': 3000 if tier == 'quick' else 60000, 'wall_s': 400 if tier == 'quick' else 3000, 'shrink_s': 90}
+
+
+# The call-history world above has one bus. A quarter of the cases are whole-program scenarios with 2-3 buses instead: the same event
+# object is handed to a second bus after it completed on the first, handlers fan out more children than a bus accepts, events are
+# forwarded; the promise is the same - whatever a bus's dispatch() returned for is processed by that bus.
+from bvt.gen import Profile, scenario  # noqa: E402
+
+P_MULTI = Profile(min_buses=2, max_buses=3, par=0.2, fwd=0.3, fan=0.25, hist=[None, 50, 50], maxdepth=[1, 2], wild=0.15, raises=0.1, max_actors=3, max_actor_ops=6, actor_ops=['disp', 'disp', 'dispany', 'sleep', 'await', 'await', 'redisp', 'redisp', 'redisp', 'yield'], dual=0.2)
+
+
+def _run_engine_case(sc):
+    from bvt.engine import fmt_trace, run_scenario
+    from bvt.facts import Facts
+    from bvt.oracles import TERMINAL, hang_text
+
+    out = run_scenario(sc)
+    F = Facts(sc, out)
+    viol, cl = [], ['multi-bus-scenario']
+    if F.hang:
+        viol.append(('C14.a', f'run never became quiescent: {hang_text(F)}'))
+    else:
+        for (bus, ev), idxs in F.enq.items():
+            fin = F.final.get(ev)
+            for hi in sorted(F.expected(bus, ev)):
+                if not F.enters.get((bus, ev, hi)):
+                    viol.append(('C14.a', f'event {ev}: dispatch on {bus} returned (trace idx {idxs}) but the bus never ran handler h{hi} for it - accepted, then dropped'))
+                    break
+            if fin is not None and (fin['status'] != 'completed' or not fin['sig'] or any(r['st'] not in TERMINAL for r in fin['results'])):
+                viol.append(('C14.a', f'event {ev} accepted on {bus} never completed: status={fin["status"]} signalled={fin["sig"]}'))
+    # refused dispatches leave no trace (judged for objects no bus ever accepted)
+    refused = {}
+    for r in F.tr:
+        if r['k'] == 'disp' and r.get('ok') is False:
+            refused.setdefault(r['ev'], r)
+    for ev, r in refused.items():
+        if ev in F.accepted:
+            continue
+        fin = F.final.get(ev)
+        if fin is not None and fin['path']:
+            viol.append(('C14.e', f'dispatch of event {ev} was refused ({r.get("exc")}) everywhere, yet its event_path is {fin["path"]}'))
+        if fin is not None and fin['results']:
+            viol.append(('C14.b', f'refused event {ev} has handler results'))
+        for ptag, s in F.final.items():
+            if any(ev in rr['kids'] for rr in s['results']):
+                viol.append(('C14.c', f'dispatch of event {ev} inside a handler of event {ptag} was refused ({r.get("exc")}) but it is recorded as a child of that event'))
+    nrej = len(refused)
+    if nrej:
+        cl.append('rejection')
+        if any(not isinstance(r['by'], str) for r in refused.values()):
+            cl.append('rejection-inside-handler')
+    for r in F.tr:
+        if r['k'] == 'redisp' and r.get('ok'):
+            first_bus = next((b for (b, e) in F.enq if e == r['ev']), None)
+            cl.append('same-object-dispatched-again:' + ('other-bus' if first_bus != r['bus'] else 'same-bus') + (':after-complete' if r.get('was_complete') else ':in-flight'))
+    nontrivial = nrej > 0 or any(c.startswith('same-object-dispatched-again:other-bus') for c in cl)
+    return {'viol': viol[:1], 'nontrivial': nontrivial, 'classes': sorted(set(cl)), 'hang': bool(F.hang), 'log': fmt_trace(out)}
 
 
 def strategy(tier):
-    return sc_default
+    return st.integers(0, 3).flatmap(lambda k: scenario(P_MULTI) if k == 0 else sc_default)
 
 
 MINE = ('C14.a', 'C14.b', 'C14.c', 'C14.d', 'C14.e')
 
 
 def run_case(sc):
+    if 'buses' in sc:
+        return _run_engine_case(sc)
     out = run_history(sc)
     viol = []
     for v in out['viol']:
